@@ -95,7 +95,11 @@ func addRenumberToMapping(d dvid.Data, v dvid.VersionID, mutID, origLabel, newLa
 	for supervoxel := range supervoxels {
 		lmap.setMapping(v, supervoxel, newLabel)
 	}
-	lmap.setMapping(v, newLabel, 0)
+	// The new label is a body id, so as a supervoxel id it maps to nothing -- unless a supervoxel
+	// with that id exists (in this body or merged into another one), whose mapping has to stay.
+	if mapped, found := lmap.MappedLabel(v, newLabel); !found || mapped == 0 {
+		lmap.setMapping(v, newLabel, 0)
+	}
 	op := labels.MappingOp{
 		MutID:    mutID,
 		Mapped:   newLabel,
